@@ -20,7 +20,8 @@ def run_cli(argv, stdout=None, stderr=None):
     """peltool.main() in-process.  Returns dict(exit, out, err, uncaught)."""
     import pel.peltool.peltool as pt
     old = (sys.argv, sys.stdout, sys.stderr)
-    out = stdout if stdout is not None else io.StringIO()
+    # standard output as it is in a UTF-8 terminal or pipe: text that cannot be encoded makes print() fail
+    out = stdout if stdout is not None else _Utf8Out()
     err = stderr if stderr is not None else io.StringIO()
     sys.argv = ['peltool.py'] + list(argv)
     sys.stdout, sys.stderr = out, err
@@ -43,9 +44,18 @@ def run_cli(argv, stdout=None, stderr=None):
     finally:
         sys.argv, sys.stdout, sys.stderr = old
     return dict(exit=code,
-                out=out.getvalue() if isinstance(out, io.StringIO) else None,
+                out=out.getvalue() if isinstance(out, (io.StringIO, _Utf8Out)) else None,
                 err=err.getvalue() if isinstance(err, io.StringIO) else None,
                 uncaught=uncaught)
+
+
+class _Utf8Out(io.TextIOWrapper):
+    def __init__(self):
+        super().__init__(io.BytesIO(), encoding='utf-8', errors='strict', newline='\n', write_through=True)
+
+    def getvalue(self):
+        self.flush()
+        return self.buffer.getvalue().decode('utf-8')
 
 
 def write_file(path, data):
